@@ -23,7 +23,7 @@ for d in sorted(glob.glob('/verif/seeded/*/')):
             os.makedirs(os.path.dirname(f'{scratch}/{rel}'), exist_ok=True)
             shutil.copy(f, f'{scratch}/{rel}')
         pkgs = sorted({'./' + os.path.dirname(r) + '/' for r in rels})
-        cmd = ['go', 'test', '-vet=off', '-count=1', '-run', 'Verif', '-timeout', '120s'] + pkgs
+        cmd = ['go', 'test', '-vet=off', '-count=1', '-run', 'Verif|Demo', '-timeout', '120s'] + pkgs
         r0 = run(cmd, cwd=scratch)
         ap = run(['git', 'apply', d + 'patch.diff'], cwd=scratch)
         b = run(['go', 'build', './...'], cwd=scratch)
